@@ -1,6 +1,10 @@
-(* Runner for property C01: wire arguments -> model -> wire result. Filled in by the C01 model. *)
+(* Runner for C01 (also used by C02/C03): c01 calc <doc> *)
 From Coq Require Import ZArith List String Bool.
-From Verif Require Import Base.Wire.
+From Verif Require Import Base.Wire Calc.Doc Calc.Calc Run.RunCalc.
 Import ListNotations.
 
-Definition run_c01 (args : list V) : list V := [verr "not-implemented"].
+Definition run_c01 (args : list V) : list V :=
+  match args with
+  | o :: d :: _ => if is_op o "calc" then e_result (calculate (d_doc d)) else [verr "unknown-c01-op"]
+  | _ => [verr "unknown-c01-op"]
+  end.
